@@ -1236,6 +1236,16 @@ where
     }
 
     // the starting position in the stream we rewind to
+    /// Writes the blocks over the original ones, reporting
+    /// success only once the buffered bytes reached the file
+    fn write_in_place<F: std::io::Write>(original: F, blocks: BlockList) -> Result<(), Error> {
+        use std::io::Write;
+
+        let mut w = BufWriter::new(original);
+        write_blocks(w.by_ref(), blocks)?;
+        w.flush().map_err(Error::Io)
+    }
+
     let start = std::io::SeekFrom::Start(original.stream_position().map_err(Error::Io)?);
 
     let mut reader = Counter::new(BufReader::new(&mut original));
@@ -1262,7 +1272,7 @@ where
             match grow_padding(&mut blocks, old_size - new_size) {
                 Ok(()) => {
                     original.seek(start).map_err(Error::Io)?;
-                    write_blocks(BufWriter::new(original), blocks)
+                    write_in_place(original, blocks)
                         .map(|()| false)
                         .map_err(E::from)
                 }
@@ -1274,7 +1284,7 @@ where
         Ordering::Equal => {
             // blocks are the same size, so no need to adjust padding
             original.seek(start).map_err(Error::Io)?;
-            write_blocks(BufWriter::new(original), blocks)
+            write_in_place(original, blocks)
                 .map(|()| false)
                 .map_err(E::from)
         }
@@ -1284,7 +1294,7 @@ where
             match shrink_padding(&mut blocks, new_size - old_size) {
                 Ok(()) => {
                     original.seek(start).map_err(Error::Io)?;
-                    write_blocks(BufWriter::new(original), blocks)
+                    write_in_place(original, blocks)
                         .map(|()| false)
                         .map_err(E::from)
                 }
